@@ -107,6 +107,12 @@ func (s *Server) livesimHandlerFunc(w http.ResponseWriter, r *http.Request) {
 		http.Error(w, msg, http.StatusNotFound)
 		return
 	}
+	err := checkDRM(cfg.DRM, s.Cfg.DrmCfg)
+	if err != nil {
+		log.Error("checkDRM", "err", err)
+		http.Error(w, err.Error(), http.StatusBadRequest)
+		return
+	}
 	cfg.SetHost(s.Cfg.Host, r)
 	switch filepath.Ext(r.URL.Path) {
 	case ".mpd":
@@ -187,6 +193,21 @@ func (s *Server) livesimHandlerFunc(w http.ResponseWriter, r *http.Request) {
 		http.Error(w, "unknown file extension", http.StatusNotFound)
 		return
 	}
+}
+
+// checkDRM checks that the drm name from the URL is an eccp scheme or a configured DRM package.
+func checkDRM(drmName string, drmCfg *drm.DrmConfig) error {
+	switch drmName {
+	case "", "eccp-cenc", "eccp-cbcs":
+		return nil
+	}
+	if drmCfg == nil {
+		return fmt.Errorf("drm parameter %q, but no DRM configured", drmName)
+	}
+	if _, ok := drmCfg.Map[drmName]; !ok {
+		return fmt.Errorf("drm parameter %q, but no matching DRM configuration found", drmName)
+	}
+	return nil
 }
 
 func checkQuery(cfgQuery *Query, u *url.URL) bool {
